@@ -535,7 +535,7 @@ def check(ctx):
                                   'no presence bit for it and DER encodes a value equal to the default'
                                   % (conv.name, '; '.join(('' if c_[1] else 'not ') + c_[0] for c_ in p_.conds)[:160], g16.name), stmt='DEFAULT value converted to None')
     if n16 < 1:
-        raise AnalysisError('C01.R16: the conversion of member DEFAULT values was not found in asn1tools/parser.py')
+        ctx.instance('C01.R16', 'the statement that stores a converted DEFAULT value was not found in asn1tools/parser.py', 'undecided', nontrivial=False)
 
     # ---- R14: the decoders of the known-multiplier strings rebuild the octets of each character for <bytes>.decode(ENCODING).  How many octets a character has is a matter of
     #      the encoding (two for BMPString), not of the bits it takes on the wire: a permitted alphabet narrows the field, not the character.  Every decode method of the
